@@ -254,4 +254,131 @@ theorem mintVoucher_ok {cfg : Config} {ch ch' : Chain} {d' : Denom} {coin : Str}
       subst h
       exact ⟨⟨b', by simpa [setDenom] using hb', rfl⟩, rfl, rfl, rfl, Or.inr ⟨by simpa using hh, rfl⟩⟩
 
+/-! ### pointwise effects -/
+
+/-- balances after moving `n` of coin `k` from `f` to `t` (the SDK's sub-then-add order) -/
+def moveBal (bal : Addr → Str → Nat) (f t : Addr) (k : Str) (n : Nat) (a : Addr) (x : Str) : Nat :=
+  if x = k then
+    (if a = t then (if a = f then bal a x - n else bal a x) + n
+     else (if a = f then bal a x - n else bal a x))
+  else bal a x
+
+theorem Bank.send_some' {b b' : Bank} {f t : Addr} {d : Str} {n : Nat} (h : b.send f t d n = some b') :
+    n ≤ b.bal f d ∧ b'.supply = b.supply ∧ ∀ a x, b'.bal a x = moveBal b.bal f t d n a x :=
+  Bank.send_some h
+
+/-- effect of a successful `SendTransfer` -/
+theorem sendTransfer_effect {cfg : Config} {c : Nat} {ch ch' : Chain} {port chan : Str} {tok : Denom} {n : Nat}
+    {s : Addr} (h : sendTransfer cfg c ch port chan tok n s = .ok ch') :
+    ch'.denoms = ch.denoms ∧ ch'.sendEnabled = ch.sendEnabled ∧ ch'.recvEnabled = ch.recvEnabled ∧
+    n ≤ ch.bank.bal s (tok.ibcDenom cfg.hashHex) ∧
+    ((tok.hasPrefix port chan = true ∧ n ≤ ch.bank.supply (tok.ibcDenom cfg.hashHex) ∧
+      (∀ a x, ch'.bank.bal a x = if x = tok.ibcDenom cfg.hashHex ∧ a = s then ch.bank.bal a x - n else ch.bank.bal a x) ∧
+      (∀ x, ch'.bank.supply x = if x = tok.ibcDenom cfg.hashHex then ch.bank.supply x - n else ch.bank.supply x) ∧
+      ch'.totalEscrow = ch.totalEscrow) ∨
+     (tok.hasPrefix port chan = false ∧
+      (∀ a x, ch'.bank.bal a x = moveBal ch.bank.bal s (cfg.escrowAddr port chan) (tok.ibcDenom cfg.hashHex) n a x) ∧
+      ch'.bank.supply = ch.bank.supply ∧
+      (∀ x, ch'.totalEscrow x = if x = tok.ibcDenom cfg.hashHex then ch.totalEscrow x + n else ch.totalEscrow x))) := by
+  obtain ⟨_, _, hb⟩ := sendTransfer_ok h
+  rcases hb with ⟨hp, b, b', hs, hbn, rfl⟩ | ⟨hp, he⟩
+  · obtain ⟨hn, hsup, hbal⟩ := Bank.send_some hs
+    obtain ⟨hm, hsn, hbal', hsup'⟩ := Bank.burn_some hbn
+    refine ⟨rfl, rfl, rfl, hn, Or.inl ⟨hp, by rw [← hsup]; exact hsn, ?_, ?_, rfl⟩⟩
+    · intro a x
+      simp only
+      rw [hbal' a x, hbal a x]
+      have hm' := hm
+      rw [hbal] at hm'
+      by_cases hx : x = tok.ibcDenom cfg.hashHex
+      · subst hx
+        by_cases ham : a = cfg.moduleAddr <;> by_cases has : a = s <;> simp [ham, has] <;> (try subst ham) <;> (try subst has) <;> simp_all <;> omega
+      · simp [hx]
+    · intro x
+      simp only
+      rw [hsup' x, hsup]
+  · obtain ⟨b', hs, hbk, hte, hd, hse, hre⟩ := escrowCoin_ok he
+    obtain ⟨hn, hsup, hbal⟩ := Bank.send_some hs
+    refine ⟨hd, hse, hre, hn, Or.inr ⟨hp, ?_, ?_, hte⟩⟩
+    · intro a x; rw [hbk]; exact hbal a x
+    · rw [hbk]; exact hsup
+
+/-- effect of a successful `refundPacketTokens` -/
+theorem refund_effect {cfg : Config} {c : Nat} {ch ch' : Chain} {sp sc : Str} {data : PacketData}
+    (h : refundPacketTokens cfg c ch sp sc data = .ok ch') :
+    ∃ s, cfg.decode data.sender = some s ∧
+    ch'.denoms = ch.denoms ∧ ch'.sendEnabled = ch.sendEnabled ∧ ch'.recvEnabled = ch.recvEnabled ∧
+    (((extract data.denom).hasPrefix sp sc = true ∧
+      (∀ a x, ch'.bank.bal a x = if x = (extract data.denom).ibcDenom cfg.hashHex ∧ a = s then ch.bank.bal a x + data.amount else ch.bank.bal a x) ∧
+      (∀ x, ch'.bank.supply x = if x = (extract data.denom).ibcDenom cfg.hashHex then ch.bank.supply x + data.amount else ch.bank.supply x) ∧
+      ch'.totalEscrow = ch.totalEscrow) ∨
+     ((extract data.denom).hasPrefix sp sc = false ∧
+      data.amount ≤ ch.bank.bal (cfg.escrowAddr sp sc) ((extract data.denom).ibcDenom cfg.hashHex) ∧
+      data.amount ≤ ch.totalEscrow ((extract data.denom).ibcDenom cfg.hashHex) ∧
+      (∀ a x, ch'.bank.bal a x = moveBal ch.bank.bal (cfg.escrowAddr sp sc) s ((extract data.denom).ibcDenom cfg.hashHex) data.amount a x) ∧
+      ch'.bank.supply = ch.bank.supply ∧
+      (∀ x, ch'.totalEscrow x = if x = (extract data.denom).ibcDenom cfg.hashHex then ch.totalEscrow x - data.amount else ch.totalEscrow x))) := by
+  obtain ⟨s, hs, hb⟩ := refund_ok h
+  refine ⟨s, hs, ?_⟩
+  rcases hb with ⟨hp, b', hsend, rfl⟩ | ⟨hp, hu⟩
+  · obtain ⟨hn, hsup, hbal⟩ := Bank.send_some hsend
+    refine ⟨rfl, rfl, rfl, Or.inl ⟨hp, ?_, ?_, rfl⟩⟩
+    · intro a x
+      simp only
+      rw [hbal a x]
+      simp only [Bank.mint_bal]
+      by_cases hx : x = (extract data.denom).ibcDenom cfg.hashHex
+      · subst hx
+        by_cases ham : a = cfg.moduleAddr <;> by_cases has : a = s <;> simp [ham, has] <;> (try subst ham) <;> (try subst has) <;> simp_all <;> omega
+      · simp [hx]
+    · intro x
+      simp only
+      rw [hsup, Bank.mint_supply]
+  · obtain ⟨b', hsend, hbk, hte, htot, hd, hse, hre⟩ := unescrowCoin_ok hu
+    obtain ⟨hn, hsup, hbal⟩ := Bank.send_some hsend
+    refine ⟨hd, hse, hre, Or.inr ⟨hp, hn, hte, ?_, ?_, htot⟩⟩
+    · intro a x; rw [hbk]; exact hbal a x
+    · rw [hbk]; exact hsup
+
+/-- effect of a successful `OnRecvPacket` -/
+theorem onRecvPacket_effect {cfg : Config} {c : Nat} {ch ch' : Chain} {data : PacketData} {sp sc dp dc : Str}
+    (h : onRecvPacket cfg c ch data sp sc dp dc = .ok ch') :
+    ∃ r, cfg.decode data.receiver = some r ∧ validatePacketData data = none ∧
+    ch'.sendEnabled = ch.sendEnabled ∧ ch'.recvEnabled = ch.recvEnabled ∧
+    (((extract data.denom).hasPrefix sp sc = true ∧ ch'.denoms = ch.denoms ∧
+      data.amount ≤ ch.bank.bal (cfg.escrowAddr dp dc) (ics20RecvCoinDenom cfg.hashHex sp sc dp dc data.denom) ∧
+      data.amount ≤ ch.totalEscrow (ics20RecvCoinDenom cfg.hashHex sp sc dp dc data.denom) ∧
+      (∀ a x, ch'.bank.bal a x = moveBal ch.bank.bal (cfg.escrowAddr dp dc) r (ics20RecvCoinDenom cfg.hashHex sp sc dp dc data.denom) data.amount a x) ∧
+      ch'.bank.supply = ch.bank.supply ∧
+      (∀ x, ch'.totalEscrow x = if x = ics20RecvCoinDenom cfg.hashHex sp sc dp dc data.denom then ch.totalEscrow x - data.amount else ch.totalEscrow x)) ∨
+     ((extract data.denom).hasPrefix sp sc = false ∧
+      (ch'.denoms = ch.denoms ∨
+        ch'.denoms = (setDenom cfg ch ⟨⟨dp, dc⟩ :: (extract data.denom).trace, (extract data.denom).base⟩).denoms) ∧
+      (∀ a x, ch'.bank.bal a x = if x = ics20RecvCoinDenom cfg.hashHex sp sc dp dc data.denom ∧ a = r then ch.bank.bal a x + data.amount else ch.bank.bal a x) ∧
+      (∀ x, ch'.bank.supply x = if x = ics20RecvCoinDenom cfg.hashHex sp sc dp dc data.denom then ch.bank.supply x + data.amount else ch.bank.supply x) ∧
+      ch'.totalEscrow = ch.totalEscrow)) := by
+  obtain ⟨hv, _, r, hr, _, hb⟩ := onRecvPacket_ok h
+  refine ⟨r, hr, hv, ?_⟩
+  rcases hb with ⟨hp, hu⟩ | ⟨hp, hm⟩
+  · obtain ⟨b', hsend, hbk, hte, htot, hd, hse, hre⟩ := unescrowCoin_ok hu
+    obtain ⟨hn, hsup, hbal⟩ := Bank.send_some hsend
+    refine ⟨hse, hre, Or.inl ⟨hp, hd, hn, hte, ?_, ?_, htot⟩⟩
+    · intro a x; rw [hbk]; exact hbal a x
+    · rw [hbk]; exact hsup
+  · obtain ⟨⟨b', hsend, hbk⟩, htot, hse, hre, hden⟩ := mintVoucher_ok hm
+    obtain ⟨hn, hsup, hbal⟩ := Bank.send_some hsend
+    refine ⟨hse, hre, Or.inr ⟨hp, ?_, ?_, ?_, htot⟩⟩
+    · rcases hden with e | ⟨_, e⟩
+      · exact Or.inl e
+      · exact Or.inr e
+    · intro a x
+      rw [hbk, hbal a x]
+      simp only [Bank.mint_bal]
+      by_cases hx : x = ics20RecvCoinDenom cfg.hashHex sp sc dp dc data.denom
+      · subst hx
+        by_cases ham : a = cfg.moduleAddr <;> by_cases has : a = r <;> simp [ham, has] <;> (try subst ham) <;> (try subst has) <;> simp_all <;> omega
+      · simp [hx]
+    · intro x
+      rw [hbk, hsup, Bank.mint_supply]
+
 end IbcVerif.Ics20
